@@ -213,12 +213,15 @@ Proof.
 Qed.
 
 Lemma rstep_get s o k :
-  route_get (fst (rstep_g dk s o)) (dk k) = registrant_from (route_get s (dk k)) [o] k.
+  route_get (routes (fst (rstep_g dk s o))) (dk k) = registrant_from (route_get (routes s) (dk k)) [o] k.
 Proof.
-  destruct o as [client ups f ok|to m ok fget]; cbn [rstep_g registrant_from].
-  - pose proof (apply_updates_get k client f ups s 0%nat) as H.
-    destruct (apply_updates_g dk s client ups f 0) as [s' es]. exact H.
-  - destruct fget; [reflexivity|]. destruct (route_get s (dk to)); reflexivity.
+  destruct o as [client ups f ok|to m ok fget fres|c n|]; cbn [rstep_g registrant_from].
+  - pose proof (apply_updates_get k client f ups (routes s) 0%nat) as H.
+    destruct (apply_updates_g dk (routes s) client ups f 0) as [s' es]. exact H.
+  - destruct fget; [reflexivity|]. destruct (route_get (routes s) (dk to)); [|reflexivity].
+    destruct fres; [reflexivity|]. destruct ok; reflexivity.
+  - destruct (inbox_opt (inboxes s) c); reflexivity.
+  - reflexivity.
 Qed.
 
 Lemma registrant_from_app k : forall h1 h2 cur,
@@ -229,7 +232,7 @@ Proof.
 Qed.
 
 Lemma rrun_get k : forall h s,
-  route_get (fst (rrun_g dk s h)) (dk k) = registrant_from (route_get s (dk k)) h k.
+  route_get (routes (fst (rrun_g dk s h))) (dk k) = registrant_from (route_get (routes s) (dk k)) h k.
 Proof.
   induction h as [|o h IH]; intros s; [reflexivity|].
   cbn [rrun_g]. pose proof (rstep_get s o k) as H1. destruct (rstep_g dk s o) as [s1 x]. cbn [fst] in H1.
@@ -238,28 +241,71 @@ Proof.
 Qed.
 
 Lemma forward_step s hist to m ok :
-  (forall k, route_get s (dk k) = registrant hist k) ->
-  rstep_g dk s (RForward to m ok false) =
-    (s, match registrant hist to with Some d => if ok then ORelay d m else OHeld d m | None => ODrop end).
-Proof. intros Hs. cbn [rstep_g]. rewrite Hs. destruct (registrant hist to); reflexivity. Qed.
+  (forall k, route_get (routes s) (dk k) = registrant hist k) ->
+  snd (rstep_g dk s (RForward to m ok false false)) =
+    match registrant hist to with Some d => if ok then ORelay d m else OHeld d m | None => ODrop end.
+Proof. intros Hs. cbn [rstep_g]. rewrite Hs. destruct (registrant hist to); [destruct ok|]; reflexivity. Qed.
 
 Lemma route_exact_gen : forall ops hist s,
-  (forall k, route_get s (dk k) = registrant hist k) ->
+  (forall k, route_get (routes s) (dk k) = registrant hist k) ->
   route_exact_from hist ops (snd (rrun_g dk s ops)) = true.
 Proof.
   induction ops as [|o ops IH]; intros hist s Hs; [reflexivity|].
   cbn [rrun_g]. pose proof (fun k => rstep_get s o k) as Hg.
   destruct (rstep_g dk s o) as [s1 x] eqn:Es.
-  assert (Hs1 : forall k, route_get s1 (dk k) = registrant (hist ++ [o]) k).
+  assert (Hs1 : forall k, route_get (routes s1) (dk k) = registrant (hist ++ [o]) k).
   { intros k. specialize (Hg k). cbn [fst] in Hg. rewrite Hg. unfold registrant. rewrite registrant_from_app. rewrite <- Hs. reflexivity. }
   specialize (IH (hist ++ [o]) s1 Hs1). destruct (rrun_g dk s1 ops) as [s2 xs]. cbn [snd route_exact_from] in *.
   rewrite IH, andb_true_r.
-  destruct o as [client ups f ok|to m ok fget].
-  - cbn [rstep_g] in Es. destruct (apply_updates_g dk s client ups f 0). inversion Es; subst. reflexivity.
+  destruct o as [client ups f ok|to m ok fget fres|c n|].
+  - cbn [rstep_g] in Es. destruct (apply_updates_g dk (routes s) client ups f 0). inversion Es; subst. reflexivity.
   - cbn [rstep_g] in Es. destruct fget.
     + inversion Es; subst. reflexivity.
-    + rewrite <- Hs. destruct (route_get s (dk to)) as [d|]; inversion Es; subst; [|reflexivity].
-      destruct ok; cbn [deliveries]; rewrite !N.eqb_refl; reflexivity.
+    + cbn [orb]. rewrite <- Hs. destruct (route_get (routes s) (dk to)) as [d|].
+      * destruct fres; [inversion Es; subst; reflexivity|].
+        destruct ok; inversion Es; subst; cbn [deliveries]; rewrite !N.eqb_refl; reflexivity.
+      * inversion Es; subst. destruct fres; reflexivity.
+  - cbn [rstep_g] in Es. destruct (inbox_opt (inboxes s) c); inversion Es; subst; reflexivity.
+  - cbn [rstep_g] in Es. inversion Es; subst. reflexivity.
+Qed.
+
+(* what was held for d = what d picked up ++ what is still held for d, as lists *)
+Lemma step_conserve s o d :
+  let '(s1, x) := rstep_g dk s o in
+  picked_up d [x] ++ inbox s1 d = inbox s d ++ held_for d [x].
+Proof.
+  destruct o as [client ups f ok|to m ok fget fres|c n|]; cbn [rstep_g].
+  - destruct (apply_updates_g dk (routes s) client ups f 0) as [r' es]. cbn [picked_up held_for app]. unfold inbox. cbn [inboxes].
+    rewrite app_nil_r. reflexivity.
+  - destruct fget; [cbn [picked_up held_for app]; rewrite app_nil_r; reflexivity|].
+    destruct (route_get (routes s) (dk to)) as [r|]; [|cbn [picked_up held_for app]; rewrite app_nil_r; reflexivity].
+    destruct fres; [cbn [picked_up held_for app]; rewrite app_nil_r; reflexivity|].
+    destruct ok; [cbn [picked_up held_for app]; rewrite app_nil_r; reflexivity|].
+    cbn [picked_up held_for app]. unfold inbox at 1. cbn [inboxes inbox_opt].
+    destruct (d =? r) eqn:E.
+    + apply N.eqb_eq in E. subst r. rewrite app_nil_r. reflexivity.
+    + rewrite app_nil_r. reflexivity.
+  - destruct (inbox_opt (inboxes s) c) as [l|] eqn:El; [|cbn [picked_up held_for app]; rewrite app_nil_r; reflexivity].
+    cbn [picked_up held_for]. unfold inbox at 1. cbn [inboxes inbox_opt]. rewrite !app_nil_r.
+    destruct (d =? c) eqn:E.
+    + apply N.eqb_eq in E. subst c. unfold inbox. rewrite El. apply firstn_skipn.
+    + reflexivity.
+  - cbn [picked_up held_for app]. rewrite app_nil_r. reflexivity.
+Qed.
+
+Lemma picked_up_cons d x xs : picked_up d (x :: xs) = picked_up d [x] ++ picked_up d xs.
+Proof. destruct x; cbn [picked_up]; rewrite ?app_nil_r; reflexivity. Qed.
+Lemma held_for_cons d x xs : held_for d (x :: xs) = held_for d [x] ++ held_for d xs.
+Proof. destruct x; cbn [held_for]; rewrite ?app_nil_r; reflexivity. Qed.
+
+Lemma run_conserve d : forall ops s,
+  let '(s', outs) := rrun_g dk s ops in
+  picked_up d outs ++ inbox s' d = inbox s d ++ held_for d outs.
+Proof.
+  induction ops as [|o ops IH]; intros s; [cbn; rewrite app_nil_r; reflexivity|].
+  cbn [rrun_g]. pose proof (step_conserve s o d) as H1. destruct (rstep_g dk s o) as [s1 x].
+  specialize (IH s1). destruct (rrun_g dk s1 ops) as [s2 xs].
+  rewrite picked_up_cons, held_for_cons. rewrite <- app_assoc, IH, !app_assoc, H1. reflexivity.
 Qed.
 End Store.
 
